@@ -250,7 +250,8 @@ POOL = [
     ('[$fd, $fd2, $fd].toSet().len() + $.n', 'collections,hash'), ('set($fd, $fd2).len()', 'collections,hash'),
     ('{$hd => $.n}.len()', 'collections,hash,hkey'), ('[$hd, $hd2, $hd].toSet().len() + $.n', 'collections,hash,hkey'),
     ('[$hd, $hd].distinct().len() * $.n', 'queries,hash,hkey'), ('$doc.b.get(x) + $.n', 'collections'),
-    ('$.b.keys().len()', 'collections'), ('$rows.select($.k).toList() + $.a', 'collections'),
+    ('$.b.keys().len()', 'collections'), ('{$.s => $.n, x => $.a.len()}', 'collections,mapping'),
+    ('dict($.s => $.a.sum(), $.n => $.s.len())', 'collections,mapping'), ('$.b.set($.s, $.a.len())', 'collections,mapping'), ('$rows.select($.k).toList() + $.a', 'collections'),
     # queries
     ('let(d => $) -> $d.a.where($ > 1).select($ * $d.n)', 'queries,system'),
     ('$.a.orderBy($)', 'queries,ordering'), ('$.a.orderByDescending($).take(2)', 'queries,ordering'),
@@ -270,15 +271,27 @@ POOL = [
     ('let(d => $) -> src(4).select($ + $d.n)', 'queries,src,system'), ('src(5).groupBy($ mod 2, $, $.sum())', 'queries,src,group'),
     ('src(3).join(src(2), true, $1 * 10 + $2)', 'queries,src,memorize'),
     ('$.a.orderBy($ mod 3).thenBy(-$).select($ + $doc.n)', 'queries,ordering'),
+    # lambdas that read the evaluation's own variables (the way a leaked context becomes visible)
+    ('let(k => $.n) -> $.a.select($ + $k)', 'queries,system,closure'), ('let(k => $.n) -> $.a.where($ < $k)', 'queries,system,closure'),
+    ('let(k => $.n) -> $.rows.orderBy($.k * $k).thenBy($.v).select($.v + str($k))', 'queries,ordering,system,closure'),
+    ('let(k => $.n) -> $.a.groupBy($ mod 2, $ + $k, $.sum() + $k)', 'queries,group,system,closure'),
+    ('let(d => $) -> $d.a.any($ = $d.n)', 'queries,system,closure'), ('let(k => $.n) -> src(4).select($ * $k)', 'queries,src,system,closure'),
+    ('let(k => $.s) -> $.rows.select($k + $.v)', 'queries,system,closure'), ('let(k => $.n) -> $.a.aggregate($1 + $2 * $k, 0)', 'queries,system,closure'),
+    ('let(k => $.n) -> $.a.takeWhile($ != $k).len()', 'queries,system,closure'), ('let(k => $.n) -> $.a.zip($.a.select($ - $k))', 'queries,system,closure'),
+    ('let(k => $.n) -> $.a.orderBy($ mod $k)', 'queries,ordering,system,closure'),
+    ('let(k => $.s) -> $.a.select(switch($ > 2 => $k, true => str($)))', 'branching,system,closure'),
+    ("let(k => $.n) -> regex('\\w+').searchAll($.s, $.len() + $k)", 'regex,system,closure'),
+    ('let(k => $.n) -> def(addk, $ + $k) -> $.a.select(addk($))', 'system,def,closure'),
+    ('let(k => $.n) -> $.a.join($rows, $1 > $2.k, $1 * $k)', 'queries,memorize,system,closure'),
     # strings
     ('$.s.toUpper()', 'strings'), ("$.s.split(' ')", 'strings'), ("$.s.replace('l', 'L')", 'strings'),
     ('$.s.len() + $.n', 'strings'), ('$.s.substring(1, 3)', 'strings'), ('str($.n) + $.s', 'strings'),
     ("$.s.startsWith('he')", 'strings'), ("$.s.split('o').join('-')", 'strings'), ("$.s.indexOf('l')", 'strings'),
-    ("'{0}-{1}'.format(str($.n), $.s)", 'strings'), ('$.s.trim().toLower()', 'strings'),
+    ("'{0}-{1}'.format(str($.n), $.s)", 'strings,error'), ('$.s.trim().toLower()', 'strings'),
     # regex
     ("regex('l+').search($.s)", 'regex'), ("$.s.matches('h.*')", 'regex'), ("regex('(o)').searchAll($.s)", 'regex'),
     ("regex('o').replace($.s, '0')", 'regex'), ("regex('(\\\\w)(\\\\w)').search($.s, $2 + $1)", 'regex'),
-    ("$.s =~ 'hel+o.*'", 'regex'), ("let(d => $) -> regex('(?P<first>\\\\w)(\\\\w+)').search($d.s, $first + str($d.n))", 'regex,system'),
+    ("$.s =~ 'hel+o.*'", 'regex'), ("let(d => $) -> regex('(?P<first>\\\\w)(\\\\w+)').search($d.s, $first.value + str($d.n))", 'regex,system,closure'),
     ("regex('\\\\w+').searchAll($.s, $.len())", 'regex'), ("$.s.replace(regex('[aeiou]'), '*')", 'regex'),
     # math
     ('$.n * 2 + 1', 'math'), ('$.n mod 3', 'math'), ('abs(-$.n)', 'math'), ('max($.n, 3)', 'math'),
@@ -746,7 +759,7 @@ def part_a(seed, tier, share, nshares, deadline):
     uninstall = install_call_point()
     stats = dict(cases=0, schedules_exhaustive=0, schedules_preempt=0, schedules_random=0, threads={}, tags={},
                  outcomes={}, steps_hist={}, switches=0, ctx_writes=0, lazy_writes=0, styles={})
-    fails, sigs, samples = [], [], []
+    fails, sigs, samples, soft = [], [], [], {}
     try:
         R = StmtRunner(owners)
         pool = list(POOL)
@@ -759,9 +772,12 @@ def part_a(seed, tier, share, nshares, deadline):
             sigs.append([common.digest([texts, datas, styles, s.trace]), len(set(zip(texts, datas))) > 1 and sw >= 2])
             if len(samples) < 2:
                 samples.append(dict(kind='stmt', texts=texts, datas=datas, styles=styles, schedule=s.trace))
-            if f is not None:
+            if f is not None and f['kind'] == 'oracle':
                 fails.append(shrink_stmt(R, f))
                 return False
+            if f is not None:              # the tie is broken but no evaluation returned a wrong result: keep searching
+                if f['key'] not in soft:
+                    soft[f['key']] = f
             return True
 
         def account(texts, datas, styles, counts):
@@ -785,23 +801,29 @@ def part_a(seed, tier, share, nshares, deadline):
         idx = list(range(len(pool)))
         rng.shuffle(idx)
         ci = 0
-        while ci < ncases and not fails and time.time() < deadline:
+        while ci < ncases and not any(f['kind'] == 'oracle' for f in fails) and time.time() < deadline:
             ci += 1
             k = rng.choice([2, 2, 2, 3, 3, 4])
             mode = rng.random()
             first = pool[idx[(ci * nshares + share) % len(idx)]][0]
             if mode < 0.35:
                 texts = [first] * k                       # the same parsed statement in every thread
-            elif mode < 0.55:
-                hashy = [t for t, tags in pool if 'hash' in tags]
-                texts = [first] + [rng.choice(hashy) for _ in range(k - 1)] if 'hash' in dict(pool)[first] else \
-                    [first] + [rng.choice(pool)[0] for _ in range(k - 1)]
+            elif mode < 0.65:
+                # feature-affine: the other threads run statements that share a tag (ordering, group, memorize,
+                # hash, def, regex, ...) with the first one, so that the same stateful machinery runs concurrently
+                tag = rng.choice(dict(pool)[first].split(','))
+                mates = [t for t, tags in pool if tag in tags.split(',')]
+                texts = [first] + [rng.choice(mates) for _ in range(k - 1)]
             else:
                 texts = [first] + [rng.choice(pool)[0] for _ in range(k - 1)]
             datas = [rng.randrange(len(DATAS)) for _ in texts]
             if mode < 0.35 and rng.random() < 0.5:
                 datas = [datas[0]] + [(datas[0] + 1 + j) % len(DATAS) for j in range(k - 1)]
             styles = [rng.choice(['shared', 'shared', 'own', 'own']) for _ in texts]
+            if mode < 0.35 and rng.random() < 0.7:
+                styles = ['shared'] * k               # ONE parsed statement object in all threads
+                if len(set(datas)) == 1:
+                    datas = [(datas[0] + j) % len(DATAS) for j in range(k)]
             counts = [R.steps(t, d) for t, d in zip(texts, datas)]
             account(texts, datas, styles, counts)
             total = sum(counts)
@@ -840,6 +862,7 @@ def part_a(seed, tier, share, nshares, deadline):
             if not fails:
                 diff = R.root_diff()
                 if diff is not None:
+                    R.root_snap = snapshot(R.world.root)
                     fails.append(dict(kind='mismatch' if diff['attrs_only'] else 'oracle',
                                       key='definition-written' if diff['attrs_only'] else 'shared-context-changed',
                                       what='the library layers of the shared context chain changed while evaluating %r: layer %d %s: %s'
@@ -850,7 +873,144 @@ def part_a(seed, tier, share, nshares, deadline):
     finally:
         uninstall()
         owners.uninstall()
+    fails += [f for f in soft.values()]
     return dict(stats=stats, fails=fails, sigs=sigs, samples=samples)
+
+
+# ====================================================================== (F) line-granularity schedules
+
+def install_line_points():
+    """every LINE event of code in the yaql package becomes a scheduling point (sys.monitoring, Python >= 3.12):
+    a deterministic, replayable refinement of the dispatch granularity - what the free-running stress only samples"""
+    mon = getattr(sys, 'monitoring', None)
+    if mon is None:
+        return None
+    ydir = os.path.join(os.path.realpath(common.REPO), 'yaql') + os.sep
+    tool = next((i for i in (3, 4, 2, 1) if mon.get_tool(i) is None), None)
+    if tool is None:
+        return None
+
+    ours = {}
+
+    def on_line(code, line):
+        fn = code.co_filename
+        y = ours.get(fn)
+        if y is None:
+            y = ours[fn] = fn[:1] != '<' and os.path.realpath(fn).startswith(ydir)
+        if not y:
+            return mon.DISABLE
+        _point()
+    mon.use_tool_id(tool, 'c18-lines')
+    mon.register_callback(tool, mon.events.LINE, on_line)
+    mon.set_events(tool, mon.events.LINE)
+
+    def undo():
+        mon.set_events(tool, 0)
+        mon.register_callback(tool, mon.events.LINE, None)
+        mon.free_tool_id(tool)
+    return undo
+
+
+def expand_blocks(blocks):
+    sc = []
+    for i, c in blocks:
+        sc += [i] * c
+    return sc
+
+
+def to_blocks(trace):
+    out = []
+    for i in trace:
+        if out and out[-1][0] == i:
+            out[-1][1] += 1
+        else:
+            out.append([i, 1])
+    return out
+
+
+def part_f(seed, tier, deadline):
+    rng = common.make_rng(seed, 'C18-F')
+    stats = dict(cases=0, schedules=0, steps=0, switches=0, threads={}, tags={})
+    fails, sigs, samples, soft = [], [], [], {}
+    undo = install_line_points()
+    if undo is None:
+        return dict(stats=dict(skipped='sys.monitoring unavailable'), fails=[], sigs=[], samples=[])
+    owners = Owners()
+    owners.install()
+    try:
+        R = StmtRunner(owners)
+        pool = list(POOL)
+        n = 0
+        while time.time() < deadline and not fails:
+            n += 1
+            k = rng.choice([2, 2, 2, 3])
+            first = rng.choice(pool)[0]
+            if rng.random() < 0.6:
+                texts = [first] * k
+                styles = ['shared'] * k
+            else:
+                tag = rng.choice(dict(pool)[first].split(','))
+                mates = [t for t, tags in pool if tag in tags.split(',')]
+                texts = [first] + [rng.choice(mates) for _ in range(k - 1)]
+                styles = [rng.choice(['shared', 'own']) for _ in texts]
+            d0 = rng.randrange(len(DATAS))
+            datas = [(d0 + j) % len(DATAS) for j in range(k)]
+            stats['cases'] += 1
+            stats['threads'][str(k)] = stats['threads'].get(str(k), 0) + 1
+            for t in texts:
+                for tag in dict(POOL)[t].split(','):
+                    stats['tags'][tag] = stats['tags'].get(tag, 0) + 1
+            for rep in range(3):
+                blocks = []
+                burst = rng.choice([[1, 1, 2, 3], [1, 2, 3, 5, 8, 20], [5, 20, 50, 200], [1, 1, 2, 3, 5, 8, 20, 50, 200]])
+                for _ in range(1500):
+                    blocks.append([rng.randrange(k), rng.choice(burst)])
+                f, s = R.run(texts, datas, styles, expand_blocks(blocks))
+                stats['schedules'] += 1
+                stats['steps'] += len(s.trace)
+                sw = sum(1 for a, b in zip(s.trace, s.trace[1:]) if a != b)
+                stats['switches'] += sw
+                sigs.append([common.digest([texts, datas, styles, to_blocks(s.trace)]), sw >= 2])
+                if f is not None:
+                    f['case'] = dict(kind='line', texts=texts, datas=datas, styles=styles, blocks=to_blocks(f['case']['schedule']))
+                    f['what'] = f['what'].replace('under schedule %r' % (s.trace,), 'under the line-granularity schedule of the replay file')
+                    if f['kind'] == 'oracle':
+                        fails.append(shrink_line(R, f))
+                        break
+                    soft.setdefault(f['key'], f)
+        stats['ctx_writes'] = owners.writes['context']
+    finally:
+        owners.uninstall()
+        undo()
+    fails += list(soft.values())
+    for f in fails:
+        f['what'] = f['what'][:1500]
+    return dict(stats=stats, fails=fails, sigs=sigs, samples=samples)
+
+
+def shrink_line(R, f):
+    """shortest prefix of the schedule (then: everybody finishes in index order) that still fails, by bisection"""
+    case = f['case']
+    full = expand_blocks(case['blocks'])
+    lo, hi = 0, len(full)
+    best = f
+    for _ in range(18):
+        if hi - lo <= 1:
+            break
+        mid = (lo + hi) // 2
+        try:
+            g, s = R.run(case['texts'], case['datas'], case['styles'], full[:mid])
+        except HarnessProblem:
+            break
+        if g is not None and g['kind'] == 'oracle':
+            hi = mid
+            g['case'] = dict(kind='line', texts=case['texts'], datas=case['datas'], styles=case['styles'], blocks=to_blocks(full[:mid]),
+                             note='after the listed blocks the threads finish in index order')
+            g['what'] = g['what'].replace('under schedule %r' % (s.trace,), 'under the line-granularity schedule of the replay file')
+            best = g
+        else:
+            lo = mid
+    return best
 
 
 def merge_stats(into, st):
@@ -1292,21 +1452,34 @@ def run(env, res):
 
         # ------------------------------------------------------------ (A)
         import multiprocessing
-        nsh = 3 if tier == 'quick' else 4
+        nsh = 3
         a_deadline = t_start + (34 if tier == 'quick' else 330)
         ctx = multiprocessing.get_context('fork')
-        pool = ctx.Pool(nsh)
+        pool = ctx.Pool(nsh + 1)
         try:
             jobs = [pool.apply_async(part_a, (env['seed'], tier, i, nsh, a_deadline)) for i in range(nsh)]
+            fjob = pool.apply_async(part_f, (env['seed'], tier, a_deadline))
             outs = []
             for j in jobs:
                 try:
                     outs.append(j.get(timeout=(a_deadline - time.time()) + 150))
                 except multiprocessing.TimeoutError:
                     raise HarnessProblem('a worker of part (A) did not return (scheduler deadlock?)')
+            try:
+                fout = fjob.get(timeout=max(1, a_deadline - time.time()) + 150)
+            except multiprocessing.TimeoutError:
+                raise HarnessProblem('the worker of part (F) did not return (scheduler deadlock?)')
         finally:
             pool.terminate()
-        for o in outs:
+        hist['F_line_granularity'] = fout['stats']
+        res.traces += fout['stats'].get('schedules', 0)
+        for o in outs + [fout]:
+            if o is fout:
+                for sig, nt in o['sigs']:
+                    res.case(sig, nontrivial=nt)
+                for f in o['fails']:
+                    report(f)
+                continue
             merge_stats(stats_a, o['stats'])
             for sig, nt in o['sigs']:
                 res.case(sig, nontrivial=nt)
@@ -1317,17 +1490,17 @@ def run(env, res):
                 report(f)
         res.traces += sum(stats_a.get(k, 0) for k in ('schedules_exhaustive', 'schedules_preempt', 'schedules_random'))
         hist['A_statements'] = stats_a
-        if not res.failures:
+        if not hard(res):
             part_b(env, res, rng, hist, time.time() + (8 if tier == 'quick' else 60))
-        if not res.failures:
+        if not hard(res):
             part_c(env, res, rng, hist, time.time() + (15 if tier == 'quick' else 110))
-        if not res.failures:
+        if not hard(res):
             part_d(env, res, rng, hist)
         # (E) the dynamic side of the generated table is part of (A): counted here
         hist['E_ownership'] = dict(context_writes_checked=stats_a.get('ctx_writes', 0),
                                    lazy_object_writes_checked=stats_a.get('lazy_writes', 0))
         gen = env.get('gen') or {}
-        if gen.get('unknown') and not res.failures:
+        if gen.get('unknown') and not hard(res):
             directed(env, res, rng, gen, hist)
     except HarnessProblem as e:
         print('HARNESS-ERROR property=C18 %s' % e)
@@ -1338,15 +1511,20 @@ def run(env, res):
     return res
 
 
+def hard(res):
+    return any(f.kind == 'oracle' for f in res.failures)
+
+
 def part_b(env, res, rng, hist, deadline):
     tier = env['tier']
+    n0 = len(res.failures)
     st = dict(cases=0, schedules=0, cold=0, warm=0, same_text=0)
     un1 = install_call_point()
     un2 = install_eval_points()
     try:
         n = 40 if tier == 'quick' else 600
         for ci in range(n):
-            if res.failures or time.time() > deadline:
+            if len(res.failures) > n0 or time.time() > deadline:
                 break
             k = rng.choice([2, 2, 3])
             if rng.random() < 0.5:
@@ -1449,10 +1627,11 @@ def part_c(env, res, rng, hist, deadline):
     st = dict(cases=0, schedules_exhaustive=0, schedules_preempt=0, schedules_random=0, ops={}, hash_pairs={}, threads={},
               outs={}, steps_hist={})
     undo = install_obj_points()
+    n0 = len(res.failures)
     try:
         n = 400 if tier == 'quick' else 6000
         for ci in range(n):
-            if res.failures or time.time() > deadline:
+            if len(res.failures) > n0 or time.time() > deadline:
                 break
             case = obj_case(rng, ['tiny', 'mid', 'tiny', 'mid', 'long'][ci % 5])
             counts = obj_steps(case)
@@ -1584,6 +1763,22 @@ def replay(env, res, case):
         res.case(('replay',), True)
         if f is not None:
             res.fail(f['kind'], f['key'], f['what'], f['case'])
+    elif kind == 'line':
+        undo = install_line_points()
+        if undo is None:
+            raise HarnessProblem('sys.monitoring is not available: cannot replay a line-granularity schedule')
+        owners = Owners()
+        owners.install()
+        try:
+            R = StmtRunner(owners)
+            f, s = R.run(case['texts'], case['datas'], case['styles'], expand_blocks(case['blocks']))
+        finally:
+            owners.uninstall()
+            undo()
+        res.case(('replay',), True)
+        if f is not None:
+            f['case'] = case
+            res.fail(f['kind'], f['key'], f['what'][:1500], f['case'])
     elif kind == 'eval':
         un1, un2 = install_call_point(), install_eval_points()
         try:
